@@ -395,11 +395,17 @@ func registerIntrinsics(e *Engine) {
 	// ---- math/rand: seeded sources are the host's real generator ----
 	in["math/rand.NewSource"] = func(fr *frame, args []value) value {
 		r := fr.r
-		seed := int64(toBits(r.concValue(args[0], "rand seed")))
 		t := r.eng.namedType("math/rand", "rngSource")
 		cell := new(value)
 		*cell = zero(t)
-		r.hostval[cell] = &hostObj{kind: "rand", data: rand.NewSource(seed).(rand.Source64)}
+		if _, symbolic := args[0].(Sym); symbolic {
+			// unknown seed (e.g. derived from the clock): the generator's
+			// output is arbitrary - every draw is a fresh solver variable
+			r.hostval[cell] = &hostObj{kind: "rand-sym"}
+		} else {
+			seed := int64(toBits(args[0]))
+			r.hostval[cell] = &hostObj{kind: "rand", data: rand.NewSource(seed).(rand.Source64)}
+		}
 		return iface{t: types.NewPointer(t), v: cell}
 	}
 	rngOf := func(fr *frame, p value) rand.Source64 {
@@ -407,12 +413,28 @@ func registerIntrinsics(e *Engine) {
 		if !ok {
 			fr.r.inconclusive("rngSource without host state at %s", fr.pos())
 		}
+		if h.(*hostObj).kind == "rand-sym" {
+			return nil
+		}
 		return h.(*hostObj).data.(rand.Source64)
 	}
-	in["(*math/rand.rngSource).Int63"] = func(fr *frame, args []value) value { return rngOf(fr, args[0]).Int63() }
-	in["(*math/rand.rngSource).Uint64"] = func(fr *frame, args []value) value { return rngOf(fr, args[0]).Uint64() }
+	in["(*math/rand.rngSource).Int63"] = func(fr *frame, args []value) value {
+		if g := rngOf(fr, args[0]); g != nil {
+			return g.Int63()
+		}
+		v := fr.r.freshInput("rng_unseeded", types.Uint64, "u64").(Sym)
+		return symOrConc(fr.r.ts.Bin(OpLShr, v.T, fr.r.ts.Const(SBV64, 1)), types.Int64)
+	}
+	in["(*math/rand.rngSource).Uint64"] = func(fr *frame, args []value) value {
+		if g := rngOf(fr, args[0]); g != nil {
+			return g.Uint64()
+		}
+		return fr.r.freshInput("rng_unseeded", types.Uint64, "u64")
+	}
 	in["(*math/rand.rngSource).Seed"] = func(fr *frame, args []value) value {
-		rngOf(fr, args[0]).Seed(int64(toBits(fr.r.concValue(args[1], "rand seed"))))
+		if g := rngOf(fr, args[0]); g != nil {
+			g.Seed(int64(toBits(fr.r.concValue(args[1], "rand seed"))))
+		}
 		return nil
 	}
 
@@ -713,6 +735,9 @@ func (r *Run) hostArg(fr *frame, v value) any {
 	case iface:
 		if v.t == nil {
 			return nil
+		}
+		if _, symbolic := v.v.(Sym); symbolic {
+			return fmtString("?")
 		}
 		// error / Stringer
 		if types.Implements(v.t, errorIface) || r.methodOf(v.t, "Error") != nil {
